@@ -53,7 +53,9 @@ CLAIMED.update({
         ref='DESIGN.md 3/C12'),
     'C16': dict(
         text='async_fifo_stream feeder and consumer are proved against the same protocol text and the same per-yield obligations as the sync pair (contracts/fifo.py); '
-             'a relational lemma gives equal outputs; the pinned-tree defect (stale/unbound task for a rejected element) is a failing "local is bound" obligation.',
+             'a relational lemma gives equal outputs; the pinned-tree defect (stale/unbound task for a rejected element) is a failing "local is bound" obligation. The asynchronous '
+             'parmap variants (AsyncParmapper, AsyncParmapperAsync, ParmapperAsync and their local funcs) and AsyncServer.call/stream/_enqueue/_gather_output/_wait_for_result are '
+             'proved to pass their own stream, flags, preprocessor, kwargs and capacity through and to pair each input with the awaitable of its own call.',
         technique='contract-based deductive verification: shared sidecar contract for the sync and async variants (pyvc), relational lemma, z3',
         ref='DESIGN.md 3/C16'),
 })
